@@ -73,7 +73,7 @@ type histGen struct {
 	m          *gen.Map
 	spec       gen.StoreSpec
 	exact      bool
-	budget     gen.Budget
+	budget     *gen.Budget // shared by every history of a case whose objects meet (merge, copy, compare)
 	pool       []float64 // values (magnitudes with sign) to draw from
 	weights    [opNumKinds]int
 	anySpec    bool    // round-trip / argument store kinds drawn from all 5 kinds (else non-collapsing only)
@@ -82,7 +82,7 @@ type histGen struct {
 }
 
 func newHistGen(c *core.Ctx, r *rng.Rng, m *gen.Map, spec gen.StoreSpec, pattern string, sigmaIdx float64) *histGen {
-	h := &histGen{c: c, r: r, m: m, spec: spec}
+	h := &histGen{c: c, r: r, m: m, spec: spec, budget: &gen.Budget{}}
 	vs := genValues(c, r, m, gen.StoreSpec{Kind: gen.SDense}, r.Range(4, 60), pattern, sigmaIdx)
 	h.pool = vs.vals
 	h.weights = [opNumKinds]int{30, 20, 8, 5, 3, 5, 4, 3, 2, 0}
